@@ -255,7 +255,9 @@ def oracle_layer(ctx, lk, conn, entries, options):
     cands = candidate_dates(rng, txns)
     for _ in range(12):
         o, c = rng.choice(cands), rng.choice(cands)
-        q = 'SELECT account FROM OPEN ON %s CLOSE ON %s' % (o.isoformat(), c.isoformat())
+        head = rng.choice(['SELECT account FROM', 'SELECT account FROM', 'BALANCES FROM', 'JOURNAL FROM', 'PRINT FROM',
+                           "SELECT account FROM year > 1900", 'PRINT FROM year > 1900', 'BALANCES AT cost FROM year > 1900'])
+        q = '%s OPEN ON %s CLOSE ON %s%s' % (head, o.isoformat(), c.isoformat(), rng.choice(['', ' CLEAR']))
         ctx.count('oracle:date-order')
         try:
             compiler.compile(conn, parser.parse(q))
